@@ -19,6 +19,6 @@ func modelCheck(c *core.Ctx) error {
 	c.Logf("LexSpans (guards imply invariants): %d states, %d transitions, %.1fs", res.Distinct, res.Generated, res.WallS)
 	c.CovAdd("states", int(res.Distinct))
 	c.CovAdd("transitions", int(res.Generated))
-	c.Cov("spec", "spec/LexSpans: LexSpans.tla (ground truth + property as action guards), LexMech.tla (counter mechanism of lexer.go), LexSpansTrace.tla (trace validation)")
+	c.Cov("spec", "spec/LexSpans: LexSpans.tla (ground truth + property as action guards + named deviations), LexSpansTrace.tla (trace validation)")
 	return nil
 }
